@@ -222,6 +222,89 @@ theorem C18_user_agent (strOf : PyVal → String) (contentType : String) (bodyLe
   | some v => simp only [h] at hrec hget; simp [hrec, sendContent, hget]
   | none => simp only [h] at hrec hget; simp [hrec, sendContent, hget]
 
+/- ---------- "User-Agent is the configured one": from `Config(user_agent=…)` to the header line ---------- -/
+
+/-- Specification side: the value the program configured LAST — the constructor argument, or the value of the latest
+    `cfg.user_agent = v` (copies configure nothing). -/
+def lastConfigured (arg : PyVal) : List CfgStep → PyVal
+  | [] => arg
+  | .copy :: rest => lastConfigured arg rest
+  | .store v :: rest => lastConfigured v rest
+
+/-- No step stores `None` into the attribute (the way to ask for the default is the constructor's `None`; what a
+    `None` stored afterwards means is not said by the property: `copy()` would turn it into the default, a transport
+    built directly from the object would hand `None` to `putheader`). -/
+def noNoneStore : List CfgStep → Bool
+  | [] => true
+  | .copy :: rest => noNoneStore rest
+  | .store .none :: _ => false
+  | .store _ :: rest => noNoneStore rest
+
+private theorem configInit_idem (dflt a : PyVal) : configInit dflt (configInit dflt a) = configInit dflt a := by
+  cases a <;> simp [configInit]
+  cases dflt <;> simp [configInit]
+
+private theorem configInit_of_ne (dflt v : PyVal) (h : v ≠ .none) : configInit dflt v = v := by
+  cases v <;> simp_all [configInit]
+
+private theorem foldl_cfgStep (dflt : PyVal) : ∀ (steps : List CfgStep) (a : PyVal), noNoneStore steps = true →
+    steps.foldl (cfgStep dflt) (configInit dflt a) = configInit dflt (lastConfigured a steps)
+  | [], a, _ => by simp [lastConfigured]
+  | .copy :: rest, a, h => by
+    simp only [List.foldl_cons, cfgStep, configInit_idem, lastConfigured]
+    exact foldl_cfgStep dflt rest a (by simpa [noNoneStore] using h)
+  | .store v :: rest, a, h => by
+    have hv : v ≠ .none := by intro e; subst e; simp [noNoneStore] at h
+    have hr : noNoneStore rest = true := by cases v <;> simp_all [noNoneStore]
+    simp only [List.foldl_cons, cfgStep, lastConfigured]
+    have := foldl_cfgStep dflt rest v hr
+    rwa [configInit_of_ne dflt v hv] at this
+
+/-- The `user_agent` a transport takes from the configuration is the value configured last, VERBATIM — whatever it is
+    (an empty string, blanks, `0`, …) — and the process default exactly when that value is `None`; through any number of
+    `copy()` calls and attribute stores, for `Transport`, `SafeTransport` and `UnixTransport` alike. -/
+theorem C18_configured_agent (dflt arg : PyVal) (steps : List CfgStep) (h : noNoneStore steps = true) :
+    transportAgent (configAgent dflt arg steps) =
+      match lastConfigured arg steps with
+      | .none => dflt
+      | v => v := by
+  simp only [transportAgent, configAgent, foldl_cfgStep dflt steps arg h]
+  cases lastConfigured arg steps <;> simp [configInit]
+
+/-- … and this is what the request carries: a configured string `s` — every string, the empty one included — is sent
+    as the one `User-Agent` line unless a pushed dictionary defines the name, in which case no `User-Agent` line of the
+    configuration is sent (`C18_user_agent` says the most recent override is). -/
+theorem C18_user_agent_configured (strOf : PyVal → String) (contentType : String) (bodyLen : Nat) (dflt : String)
+    (arg : PyVal) (steps : List CfgStep) (extra : HDict) (stack : List HDict) (h : noNoneStore steps = true)
+    (s : String) (hs : (match lastConfigured arg steps with | .none => PyVal.str dflt | v => v) = .str s) :
+    ∃ lines, sendContentCfg strOf contentType bodyLen (configAgent (.str dflt) arg steps) extra stack = some lines ∧
+      lines.take 2 = [("Content-Type", contentType), ("Content-Length", toString bodyLen)] ∧
+      lines.drop 2 = additional strOf extra stack ++
+        (match lastDef (allItems extra stack) "user-agent" with
+         | some _ => []
+         | none => [("User-Agent", s)]) := by
+  have hag := C18_configured_agent (.str dflt) arg steps h
+  rw [hs] at hag
+  refine ⟨sendContent strOf contentType bodyLen s extra stack, by simp [sendContentCfg, hag], by simp [sendContent], ?_⟩
+  have hua := C18_user_agent strOf contentType bodyLen s extra stack
+  cases hl : lastDef (allItems extra stack) "user-agent" with
+  | some v => simp only [hl] at hua; simpa using hua.2
+  | none => simp only [hl] at hua; simpa using hua.2
+
+/- Non-vacuity of `C18_user_agent_configured` / the case of the seeded defect: `Config(user_agent="")`, copied, no
+   override: the request carries `User-Agent:` with the empty value, not the library default. -/
+example : sendContentCfg (fun _ => "?") "application/json-rpc" 2 (configAgent (.str "jsonrpclib/x (Python y)") (.str "") [.copy])
+      [] [[]] =
+    some [("Content-Type", "application/json-rpc"), ("Content-Length", toString 2), ("User-Agent", "")] := by
+  simp [sendContentCfg, transportAgent, configAgent, cfgStep, configInit, sendContent, additional, merged, mergeInto, assocGet]
+
+/- `None` asks for the default; a later store wins over the constructor argument; hypotheses satisfiable. -/
+example : configAgent (.str "D") .none [.copy, .copy] = .str "D" ∧
+    configAgent (.str "D") (.str "a") [.copy, .store (.str " "), .copy] = .str " " ∧
+    noNoneStore [.copy, .store (.str " "), .copy] = true ∧
+    lastConfigured (.str "a") [.copy, .store (.str " "), .copy] = .str " " := by
+  simp [configAgent, cfgStep, configInit, noNoneStore, lastConfigured]
+
 private theorem popHeaders_push (stack : List HDict) (h : HDict) : popHeaders (stack ++ [h]) h = some stack := by
   simp only [popHeaders, List.reverse_append, List.reverse_cons, List.reverse_nil, List.nil_append,
     List.singleton_append, List.reverse_reverse]
